@@ -1,10 +1,14 @@
 SPECIFICATION Spec
 CONSTANTS
   MaxPos = 2
-  KwNames = {1, 2, 11, 21}
-  MaxArgs = 3
+  KwNames = {1, 2, 11}
+  MaxArgs = 2
   MaxKw = 1
   MaxSteps = 3
+  MaxRebind = 2
+  CtorModeSet = {"distinct", "boxed"}
+  CallModeSet = {"distinct", "asbound"}
+  FlagAtSet = {"call"}
   AsCoded = FALSE
   SimK = 0
 CONSTRAINT StepBound
@@ -17,3 +21,5 @@ PROPERTY CallIsPure
 PROPERTY FullBindAgrees
 PROPERTY LateBindAgrees
 PROPERTY ConstructAgrees
+PROPERTY ValuesDoNotMatter
+PROPERTY RebindOrderFree
